@@ -38,7 +38,7 @@ def closure_const(f, clos):
     return None
 
 
-def stage_error_map(ctx, f, g, name, tag):
+def stage_error_map(ctx, f, g, name, tag, depth=0):
     """failing stage -> error variant, read from the Err paths of a constructor"""
     b, paths = g.ok_paths(name)
     out = {}
@@ -63,6 +63,12 @@ def stage_error_map(ctx, f, g, name, tag):
             me = sym.subterms(inner, lambda x: x[0] == "call" and x[1].endswith("::map_err"))
             if me:
                 variant = closure_const(f, me[0][2][1])
+        if culprit is not None and variant is None and g.is_stage(culprit.name) and depth < 2:
+            # the stage reports the constructor's error type itself: read the mapping inside it
+            sb, sub = stage_error_map(ctx, f, g, culprit.name, tag, depth + 1)
+            for k_, v_ in sub.items():
+                out.setdefault(k_, set()).update(v_)
+            continue
         if culprit is not None:
             role = None
             if g.is_stage(culprit.name):
